@@ -13,6 +13,12 @@ def step (a : Acc) (ws : List String) : Acc × String :=
   | "limit" :: rest => match ints rest with
     | some [ttx, mn, bpm, ceil, pn, pl] => (a, toString (calcLimit ttx.toNat mn.toNat bpm.toNat ceil.toNat pn.toNat pl.toNat))
     | _ => (a, "bad-op")
+  | "basefee" :: rest => match ints rest with
+    | some [qr, qi, mq, tg] => (a, toString (baseFee qr.toNat qi.toNat mq.toNat tg.toNat))
+    | _ => (a, "bad-op")
+  | "flow" :: rest => match ints rest with
+    | some [prev, cur, w, mn] => (a, toString (flowAmount prev.toNat cur.toNat w.toNat mn.toNat))
+    | _ => (a, "bad-op")
   | "total" :: rest => match ints rest with
     | some [o, peP, peR, peZ, pdeR, pdeZ, s] => (a, toString (total o.toNat peP peR peZ pdeR pdeZ s))
     | _ => (a, "bad-op")
